@@ -1,3 +1,4 @@
 //! Seeded generators, tie constructors and enumerators.
 pub mod rule;
 pub mod zone;
+pub mod posix;
